@@ -5,7 +5,8 @@ from pyvc.values import (V, Int, Str, Bool, SeqV, NONE, ABSENT, TRUE, FALSE, tru
                          mk_bool, mk_str, mk_int)
 from specs.ev import EV, EVX, EV3, EVX3, D, okD, okN
 
-EVAL_RAISES = ('KeyError', 'RuntimeError', '$OtherException')
+# KeyError / ValueError: an http(s) check whose URL refers to a missing target key / to a value str() cannot write
+EVAL_RAISES = ('KeyError', 'ValueError', 'RuntimeError', '$OtherException')
 
 
 def args5(cx):
